@@ -212,7 +212,11 @@ def reject_case(suite, i, fn, warm=False):
          "PopProve": lambda: S.PopProve(k)}[fn]
     o = BL.call(f)
     if o == ("raise", "ValidationError"):
-        return None
+        # the same refused key offered again straight away: refused again
+        o2 = BL.call(f)
+        if o2 == ("raise", "ValidationError"):
+            return None
+        return (label + " (offered a second time)", "ValidationError", o2 if o2[0] == "raise" else ("returned", repr(o2[1])[:60]))
     return (label, "ValidationError", o if o[0] == "raise" else ("returned", repr(o[1])[:60]))
 
 
